@@ -7,7 +7,7 @@ CONSTANTS
   C0 = 2
   Sp0 = 2
   Methods = {"PIT"}
-  Twos = {"no", "cat"}
+  Twos = {"no"}
   ConvVars = {"dflt"}
   BnVars = {"dflt"}
   SnoVars = {1}
